@@ -627,6 +627,61 @@ def rule_bracket(ctx, rep, rid="R-C02-bracket"):
     r.note("%d adding overrides of scoped visitors" % n)
 
 
+USE_FIELDS = {
+    # (textual struct, Id field): is the Id a use of a variable of the enclosing scope?
+    ("NamedVariable", "name"): (True, "the variable named in an expression or assignment"),
+    ("For", "control"): (True, "the loop's control variable"),
+    ("FbCall", "var_name"): (False, "the invoked instance: checked by rule_function_block_invocation (P0021)"),
+    ("Function", "name"): (False, "a function name, not a variable"),
+    ("LateBound", "name"): (False, "resolved to a variable or an enumeration value by xform_resolve_late_bound_expr_kind before the rules run"),
+    ("NamedInput", "name"): (False, "a formal parameter of the callee"),
+    ("Output", "src"): (False, "an output of the callee"),
+    ("StructuredVariable", "field"): (False, "a field selector, resolved against the record's type"),
+}
+
+
+def rule_uses(ctx, rep, rid="R-C02-uses"):
+    """Where can a variable be *used*?  Every `Id` field of the statement/expression DSL (ironplc_dsl::textual) is listed and
+    classified (frozen table, one reason per row; a new Id field fails closed).  For each field that is a use of a variable of the
+    enclosing scope, the undeclared-variable rule's visitor must have an override for that node type that reads the field."""
+    r = rep.rule(rid, "every place of the statement DSL where a variable of the enclosing scope is named is looked at by the undeclared-variable rule: "
+                      "for each such Id field the rule's visitor overrides the node's visit method and reads the field", floor=8, floor_what="Id fields of ironplc_dsl::textual")
+    vis = [b for b in ctx.prog.bodies.values() if b.f["crate"] == "ironplc_analyzer" and "rule_use_declared_symbolic_var" in b.f["file"] and b.f["name"].startswith("visit_")
+           and (b.f.get("impl") or {}).get("trait_def") == "ironplc_dsl::visitor::Visitor"]
+    overrides = {b.f["name"]: b for b in vis}
+    from vlib.traversal import snake
+    for aid, a in sorted(ctx.facts.adts.items()):
+        if not aid.startswith("ironplc_dsl::textual::"):
+            continue
+        short = aid.split("::")[-1]
+        for v in a["variants"]:
+            for fl in v["fields"]:
+                if re.sub(r"\s", "", fl["ty"]) != "ironplc_dsl::core::Id":
+                    continue
+                inst = "%s.%s" % (short, fl["name"])
+                where = "%s:%d" % (a["file"], a["line"])
+                row = USE_FIELDS.get((short, fl["name"]))
+                if row is None:
+                    r.finding(inst + "|unclassified", where, "a new Id field in the statement DSL: is it a use of a variable? (add it to the table with a reason)")
+                    continue
+                use, why = row
+                if not use:
+                    r.justified(inst, "not a variable use here: " + why, where)
+                    continue
+                ob = overrides.get("visit_" + snake(short))
+                reads = False
+                if ob is not None:
+                    for _, k, pl in ob.place_uses():
+                        rt = ob.root(pl)
+                        if any(isinstance(x, list) and x[0] == "f" and x[3] == aid and x[2] == fl["name"] for x in rt[1]):
+                            reads = True
+                if reads:
+                    r.ok(inst, "%s:%d" % (ob.f["file"], ob.f["line"]), why)
+                else:
+                    r.finding(inst + "|use-not-checked", where, "%s (%s) is a use of a variable, but the undeclared-variable rule has no visit_%s that reads it: "
+                              "an undeclared name there is accepted" % (inst, why, snake(short)))
+
+
 def run(ctx, rep):
     rep.not_decided += ["that each rule's predicate is the documented one (value-level; decided only for the subrange comparison, R-C02-order)", "acceptance of all valid programs",
                         "single/double-fault behaviour on generated programs"]
@@ -650,3 +705,4 @@ def run(ctx, rep):
     # global tables are complete before a rule consults them
     from rules.c06 import rule_pipeline
     rule_pipeline(ctx, rep, rid="R-C02-pipeline")
+    rule_uses(ctx, rep)
